@@ -62,7 +62,7 @@ META = {
                   'expressible in the described tuple datainfo); the datatype layer is an oracle (C01-C03): emits_importable, '
                   'described_datainfo_equiv and command_datainfo_equiv are proved relative to explicit oracle laws (about the datatypes of the node) and the corresponding facts are tested '
                   'on the implementation with the real client datatypes (for described_datainfo_equiv the law is discharged for the model datatypes under LawfulFloatOps / CompatLaws of the float carrier, proved for Rat, '
-                  'assumed for binary64); repaired finding (fd5b705): a scaled limit the configuration puts off the grid - node and described datainfo differed on the payload one step outside the described range, they agree now; for off-grid limits the proof additionally needs GridStable (round((k*scale)/scale) = k: proved for Rat, assumed for binary64 with |k| < 2^51, re-tested by C03 in every run); property lists of ACCESSIBLES (description, group, visibility) are data taken from the real objects, '
+                  'assumed for binary64); repaired finding (5b4d2cd): a scaled limit the configuration puts off the grid - node and described datainfo differed on the payload one step outside the described range, they agree now; for off-grid limits the proof additionally needs GridStable (round((k*scale)/scale) = k: proved for Rat, assumed for binary64 with |k| < 2^51, re-tested by C03 in every run); property lists of ACCESSIBLES (description, group, visibility) are data taken from the real objects, '
                   'those of MODULES are derived by the model from the declared properties of the class, class-level values and the configuration; strict JSON: the wire text of the '
                   'real report must parse with Lean\'s JSON parser (the model has no serialiser).',
     'trusted': [
